@@ -60,10 +60,35 @@ def json_projection(p: Program, with_conditional: bool = False):
                     visit(getattr(st, "body", []), conditional, loopvars)
 
         visit(node.body, False, {})
+        def comp_keys(dc):
+            """{attr: getattr(o, attr) for attr in <tuple of constants or module constant>}"""
+            if not (isinstance(dc, ast.DictComp) and len(dc.generators) == 1 and isinstance(dc.generators[0].target, ast.Name)):
+                return None
+            var = dc.generators[0].target.id
+            it = dc.generators[0].iter
+            if isinstance(it, ast.Name) and it.id in info.module.assigns:
+                it = info.module.assigns[it.id]
+            if not isinstance(it, (ast.Tuple, ast.List)) or not all(isinstance(e, ast.Constant) for e in it.elts):
+                return None
+            if not (isinstance(dc.key, ast.Name) and dc.key.id == var):
+                return None
+            if dc.generators[0].ifs:
+                ckeys.update(e.value for e in it.elts)
+            return {e.value for e in it.elts}
+
+        for st in ast.walk(node):
+            if isinstance(st, ast.Assign) and len(st.targets) == 1 and isinstance(st.targets[0], ast.Name) and isinstance(st.value, ast.DictComp):
+                ck = comp_keys(st.value)
+                if ck is not None:
+                    names[st.targets[0].id] = set(ck)
         for r in ast.walk(node):
             if isinstance(r, ast.Return):
                 if isinstance(r.value, ast.Dict):
                     keys |= {k.value for k in r.value.keys if isinstance(k, ast.Constant)}
+                elif isinstance(r.value, ast.DictComp):
+                    ck = comp_keys(r.value)
+                    if ck is not None:
+                        keys |= ck
                 elif isinstance(r.value, ast.Name) and r.value.id in names:
                     keys |= names[r.value.id]
         if keys:
@@ -131,7 +156,7 @@ class Classifier:
                 return ("value-store?", path)
             return None
         if e.kind == "store":
-            in_ctor = e.func.endswith(".__init__") or e.func.endswith(".__setstate__")
+            in_ctor = any(q.endswith(".__init__") or q.endswith(".__setstate__") for q in (e.stack or ())) or e.func.endswith(".__init__") or e.func.endswith(".__setstate__")
             cls = self._cls_of(e.recv, path)
             if cls == "Sensor" and not in_ctor:
                 if e.name in self.sensor_store_attrs:
